@@ -33,6 +33,14 @@ func Encode(v interface{}) string {
 			return "(s)"
 		}
 		return "(s " + hex.EncodeToString([]byte(x)) + ")"
+	case []int64:
+		var b strings.Builder
+		b.WriteString("(l")
+		for _, e := range x {
+			fmt.Fprintf(&b, " (i %d)", e)
+		}
+		b.WriteByte(')')
+		return b.String()
 	case []interface{}:
 		var b strings.Builder
 		b.WriteString("(l")
